@@ -116,6 +116,9 @@ fn options(sc: &Scenario) -> Result<cmd::new::Options, String> {
     // a selector that is refused while the arguments are parsed is an ordinary refusal (nothing runs, nothing is printed)
     Wrap::try_parse_from(a).map(|w| w.options).map_err(|e| e.kind().to_string())
 }
+
+/// the message of the first panic in a child's stderr (loom reports a deadlock by panicking; the process may then abort in a destructor)
+fn first_panic(stderr: &str) -> Option<String> { let mut it = stderr.lines(); while let Some(l) = it.next() { if l.contains("panicked at") { return it.find(|x| !x.trim().is_empty()).map(|x| x.trim().chars().take(300).collect()); } } None }
 fn esc(s: &str) -> String { s.replace('\\', "\\\\").replace('"', "\\\"").replace('\n', "\\n") }
 
 /// child: explores one scenario, writes a JSON result file
@@ -184,7 +187,9 @@ fn main() {
     let exe = rs::env::current_exe().unwrap(); let start = rs::time::Instant::now();
     let pid = args.first().cloned().filter(|a| a.starts_with('C')).unwrap_or_else(|| "C18".into());
     // C12 (entropy failure is an error) uses the scenarios with an injected failure; C18 uses all of them
-    let scs: Vec<Scenario> = scenarios(tier == "thorough").into_iter().filter(|s| only.as_ref().map_or(true, |o| o == s.name)).filter(|s| pid != "C12" || s.name.starts_with("C-") || s.name.starts_with("I-") || s.name.starts_with("A-one-match-2w")).collect();
+    let scs: Vec<Scenario> = scenarios(tier == "thorough").into_iter().filter(|s| only.as_ref().map_or(true, |o| o == s.name)).filter(|s| pid != "C12" || s.name.starts_with("C-") || s.name.starts_with("I-") || s.name.starts_with("A-one-match-2w"))
+        // C17 (no deadlock, no panic) repeats the bound-2 scenarios in its quick tier; C18 owns the deeper ones
+        .filter(|s| pid != "C17" || tier == "thorough" || s.bound <= 2).collect();
     let handles: Vec<_> = scs.iter().map(|sc| { let (exe, scratch, tier, sc, replay) = (exe.clone(), scratch.clone(), tier.clone(), sc.clone(), only.is_some());
         rs::thread::spawn(move || {
             let res = format!("{scratch}/loom-{}.json", sc.name); let _ = rs::fs::remove_file(&res);
@@ -203,7 +208,8 @@ fn main() {
             None if stderr.contains("already borrowed") || stderr.contains("already mutably borrowed") => { notes.push(format!("scenario {} given up: the implementation keeps thread-local state that loom's threads share; not explored", sc.name)); }
             None => { // the child died without a result: loom aborts the process on some failures (double panic while unwinding)
                 let tail: String = stderr.lines().rev().take(12).collect::<Vec<_>>().into_iter().rev().collect::<Vec<_>>().join(" | ");
-                viols.push(serde_json::json!({"sig": format!("{pid}:schedules:{}:aborted", sc.name), "what": format!("schedule exploration of the real vanity search died (status {code:?}): {tail}"), "replay": {"sweep": sc.name, "index": 0, "kind": "loom", "checkpoint": format!("{ckdir}/loom-{}.ckpt", sc.name)}})); }
+                let first = first_panic(&stderr).unwrap_or_default(); let kind = if first.starts_with("deadlock") { "deadlock" } else { "aborted" };
+                viols.push(serde_json::json!({"sig": if kind == "deadlock" { format!("{pid}:schedules:deadlock") } else { format!("{pid}:schedules:{}:aborted", sc.name) }, "what": format!("scenario {} (workers {}, preemption bound {}, script {}): schedule exploration of the real vanity search stopped: {first} (child status {code:?}; {tail})", sc.name, sc.workers, sc.bound, sc.script), "replay": {"sweep": sc.name, "index": 0, "kind": "loom", "checkpoint": format!("{ckdir}/loom-{}.ckpt", sc.name)}})); }
             Some(v) => {
                 // thread-local state of the implementation is per OS thread, and loom runs all its threads on one: a RefCell in a
                 // thread_local! that is borrowed across a scheduling point (the entropy request) looks "already borrowed" to the
@@ -215,12 +221,17 @@ fn main() {
                 for k in oc.keys() { classes.push(format!("{}:{}", sc.name, k)); }
                 sweeps.push(serde_json::json!({"name": sc.name, "cases": n, "bound": format!("loom DPOR, {} workers + main, preemption bound {}, entropy script '{}' then failure{}; {} schedules", sc.workers, sc.bound, sc.script, if sc.extra.is_empty() { String::new() } else { format!(", extra args {:?}", sc.extra) }, n), "exhaustive": !v["capped"].as_bool().unwrap_or(false), "cap": if v["capped"].as_bool().unwrap_or(false) { serde_json::json!(format!("stopped at {} schedules", n)) } else { serde_json::Value::Null }}));
                 samples.push(serde_json::json!({"sweep": sc.name, "case": {"workers": sc.workers, "preemption_bound": sc.bound, "script": sc.script, "schedules": n, "outcome_histogram": oc, "wall_s": v["wall_s"]}}));
-                if sc.expect_two_outcomes && only.is_none() { guards.push(serde_json::json!({"name": format!("{}: schedules lead to different winners", sc.name), "ok": oc.len() >= 2, "detail": format!("{} distinct outcomes", oc.len())})); if oc.len() < 2 && v["violation"].is_null() { errors.push(format!("vacuity guard failed: {} produced a single outcome over {} schedules", sc.name, n)); } }
+                // non-vacuity: several workers must have been interleaved in more than one way. Whether the schedules lead to different
+                // winners depends on the implementation's policy (first finisher decides / remaining workers go on after a failure), so the
+                // number of distinct outcomes is recorded, not required
+                if sc.expect_two_outcomes && only.is_none() { guards.push(serde_json::json!({"name": format!("{}: several schedules explored", sc.name), "ok": n >= 2, "detail": format!("{} schedules, {} distinct outcomes", n, oc.len())})); if n < 2 && v["violation"].is_null() { errors.push(format!("vacuity guard failed: {} explored a single schedule", sc.name)); } }
                 if let Some(what) = v["violation"].as_str() { let kind = if what.contains("deadlock") { "deadlock" } else if what.contains("does not have the prefix") { "wrong-phrase" } else if what.contains("not one of the scripted") { "foreign-phrase" } else if what.contains("first worker to finish") { "not-first-finisher" } else if what.contains("stopped") { "panic" } else { "wrong-output" };
                     viols.push(serde_json::json!({"sig": format!("{pid}:schedules:{kind}"), "what": format!("scenario {} (workers {}, preemption bound {}, script {}), after {} schedules: {}", sc.name, sc.workers, sc.bound, sc.script, n, what), "replay": {"sweep": sc.name, "index": 0, "kind": "loom", "checkpoint": format!("{ckdir}/loom-{}.ckpt", sc.name)}})); }
             }
         }
     }
+    // C17 is about panics, aborts and hangs (deadlocks) only
+    if pid == "C17" { viols.retain(|v| { let s = v["sig"].as_str().unwrap_or(""); s.ends_with(":panic") || s.ends_with(":deadlock") || s.ends_with(":aborted") }); }
     let nv = viols.len();
     let part = serde_json::json!({"property": pid, "layer": "loom", "tier": tier, "seed": 0, "threads": scs.len(), "wall_s": start.elapsed().as_secs_f64(), "sweeps": sweeps, "evaluations": evals, "states": states, "transitions": states, "traces": states,
         "classes": classes, "samples": samples, "violations": viols, "violations_total": nv, "guards": guards, "engine_errors": errors, "notes": notes, "extra": {}, "replay_only": only});
